@@ -8,6 +8,9 @@ use std::panic::{catch_unwind, AssertUnwindSafe};
 
 mod ana;
 mod lex;
+mod lit;
+mod parse;
+mod render;
 
 pub fn unhex(s: &str) -> Option<Vec<u8>> {
     let b = s.as_bytes();
@@ -46,6 +49,18 @@ fn handle(line: &str) -> String {
     match parts.as_slice() {
         ["lex", h] => match unhex_text(h) {
             Some(t) => lex::lex(&t),
+            None => "bad-arg".into(),
+        },
+        ["parse", h] => match unhex_text(h) {
+            Some(t) => parse::parse(&t),
+            None => "bad-arg".into(),
+        },
+        ["render", h] => match unhex_text(h) {
+            Some(t) => render::render(&t),
+            None => "bad-arg".into(),
+        },
+        ["lit", h] => match unhex_text(h) {
+            Some(t) => lit::lit(&t),
             None => "bad-arg".into(),
         },
         [cmd @ ("analyze" | "project"), rest @ ..] => {
